@@ -30,7 +30,10 @@ func Parse(query string) (Query, error) {
 	}
 
 	trimmed = strings.TrimSuffix(trimmed, ";")
-	lower := strings.ToLower(trimmed)
+	// Byte offsets found in lower are used to slice trimmed, so the two must stay
+	// aligned: fold ASCII letters only. strings.ToLower can change the byte length
+	// of non-ASCII characters.
+	lower := lowerASCII(trimmed)
 	fields := strings.Fields(lower)
 	if len(fields) == 0 {
 		return Query{}, fmt.Errorf("empty query")
@@ -48,6 +51,18 @@ func Parse(query string) (Query, error) {
 	default:
 		return Query{Type: QueryUnknown}, fmt.Errorf("unsupported statement")
 	}
+}
+
+// lowerASCII lower-cases A-Z and leaves every other byte untouched, so that
+// len(lowerASCII(s)) == len(s) and byte offsets carry over.
+func lowerASCII(s string) string {
+	b := []byte(s)
+	for i, c := range b {
+		if c >= 'A' && c <= 'Z' {
+			b[i] = c + ('a' - 'A')
+		}
+	}
+	return string(b)
 }
 
 func parseShow(fields []string) (Query, error) {
